@@ -560,7 +560,7 @@ impl Property for C05 {
                 }
             }
         }
-        for bad in ["SE-XX", "XX-GR", "SE_GR", "SE-", "-GR", "SEGR", "SE-GRR", "SSE-GR"] {
+        for bad in ["SE-XX", "XX-GR", "SE_GR", "SE-", "-GR", "SEGR", "SE-GRR", "SSE-GR", "SE-GR-X", "DC-ST-D", "SE--GR", "SE-GR "] {
             let args: Vec<String> = vec!["-f".into(), file.clone(), "-p".into(), bad.into(), "-a".into(), "1".into()];
             let o = cli::run("crustabri_iccma23", &args, StdoutMode::Pipe, t);
             checked += 1;
@@ -570,7 +570,7 @@ impl Property for C05 {
         }
         let _ = std::fs::remove_dir_all(&dir);
         Some(crate::framework::Extra {
-            value: json!({"problems_subcheck": {"processes": checked, "what": "`problems` / `--problems` list exactly the 21 problems; each accepted in upper/lower/mixed case; 8 near-misses rejected"}}),
+            value: json!({"problems_subcheck": {"processes": checked, "what": "`problems` / `--problems` list exactly the 21 problems; each accepted in upper/lower/mixed case; 12 near-misses rejected"}}),
             violations,
             ..Default::default()
         })
